@@ -92,7 +92,8 @@ CLAIMED = {
         'every destination up to 3x3 and CONCATENATE with 1..40 arguments, and '
         'emits every case; each is replayed on the real code with array '
         'literals and with referenced ranges (Cell over a destination range, '
-        'Ranges.push for fitting). For 20 further element-wise functions with '
+        'Ranges.push for fitting; a scalar also as the one-element result of '
+        'an operator). For 20 further element-wise functions with '
         'random array arguments the recorded result must be the lifting - by '
         'the spec\'s broadcasting rule - of the code\'s own scalar results '
         '(XlArrayTrace.tla).',
@@ -108,7 +109,9 @@ CLAIMED = {
         '(thorough) grid, every (pair, rectangle) and every pair/triple of the '
         '3x3 grid that the loop-by-loop transcription of _intersect, _split, '
         '__and__, __or__, __add__, __sub__, simplify/_merge yields exactly the '
-        'cells (and duplicates) the cell-set definitions give. Every case is '
+        'cells (and duplicates) the cell-set definitions give, a cell of an '
+        'intersection once per pair of covering areas (InterMultiplicity). '
+        'Every case is '
         'replayed on the real Ranges class: areas, duplicates, #NULL! for an '
         'empty intersection, different-sheet errors, and the value arrays '
         'position by position with content = coordinates; a sample is spelled '
@@ -135,7 +138,11 @@ CLAIMED = {
         'replayed on one real model (dict- and file-built) and after every '
         'calculate() every (requested) cell must equal Sem(W, ov) whatever '
         'came before. Each recorded calculation (hook H4) must be a Calc '
-        'behaviour starting from Base(W, ov) (CalcTrace.tla).',
+        'behaviour starting from Base(W, ov) (CalcTrace.tla). HistoryFree is '
+        'also observed without any expected value: 400 (quick) sequences of '
+        '2-4 calculations with supplied cells / unpopulated range members / '
+        'whole sparse ranges run on one model, and the last calculation must '
+        'give the same solution on a fresh model (harness/hdjob.py).',
         'Trusted: TLC; the generator and the concretisation of override sets; '
         'Lifecycle.tla is a history generator with read/write sets taken from '
         'reading the code, not a proof about the code.',
@@ -156,9 +163,13 @@ CLAIMED = {
         'input lists per workbook (cells, names, ranges, unpopulated cells) '
         'and called with three argument tuples of mixed kinds each (values '
         'that flip IF branches, errors, text); results must equal Sem and the '
-        'values calculate(inputs=, outputs=) gives. Random single formulas '
-        'with references: compile()(*args in func.inputs order) must equal '
-        'the formula with the arguments written in as literals.',
+        'values calculate(inputs=, outputs=) gives (where a value supplied '
+        'through a range / name does not reach a formula member in calculate() '
+        'either - the recorded C07 finding - agreement with calculate() is what '
+        'is required). Random single formulas with references: '
+        'compile()(*args in func.inputs order), arguments including pairs of '
+        'different error values, must equal the formula with the arguments '
+        'written in as literals.',
         'Trusted: TLC; generator/concretisation; the single-formula part is a '
         'metamorphic comparison of two paths of the library (no spec oracle).',
         'DESIGN.md 4/C08'),
@@ -204,7 +215,8 @@ CLAIMED = {
         'circular=True and calculated under both load paths, shuffled orders '
         'and the hash seeds, with a watchdog; every cell is compared with '
         'its expectation class (ordinary value exact, #CIRC! on unavoidable '
-        'cycles, any error downstream).',
+        'cycles, any error downstream), and the outcomes of one workbook must '
+        'be identical under every hash seed and load path.',
         'Trusted: TLC; the generator. The static cut analysis of the code is '
         'not transcribed; its two systematic deviations from evaluation by '
         'need are recorded as known findings.',
@@ -225,8 +237,11 @@ CLAIMED = {
         'times with the clock of formulas.functions.date and numpy\'s seed '
         'set by the harness: values must differ whenever clock and seed '
         'differ and repeat with the clock for NOW/TODAY; dependents of one '
-        'volatile cell see one value; RAND in [0,1), RANDBETWEEN an integer in '
-        'bounds. The recorded vol events (function, compiling flag) must show '
+        'volatile cell see one value; RAND in [0,1). RandBetween.tla defines '
+        'RANDBETWEEN over all pairs of half / tenth bounds (InBounds, '
+        'NumIffEmpty, Ends); each pair is drawn 40 times on the real function: '
+        'an integer of the allowed set, #NUM! when no integer lies between the '
+        'bounds, not always the same value. The recorded vol events (function, compiling flag) must show '
         'no real evaluation while obtaining and exactly one per site per use.',
         'Trusted: TLC; the clock patch (module attribute of '
         'formulas.functions.date) and numpy seeding. Equal volatile '
@@ -247,7 +262,10 @@ CLAIMED = {
         'every schedule: no stuck state, every value equals SemF (errors as '
         'ordinary values; a formula using an unimplemented function is '
         '#NAME? as a whole). Each case is written to .xlsx with the absent '
-        'files absent and the unreadable one garbage, loaded, finished and '
+        'files absent and the unreadable one garbage (one seed in three with '
+        'numeric link ids: every book\'s link table starts with an unreadable '
+        'LEGACY.XLS, cross-book references are written [n]Sheet!A1 and faults '
+        'go through [1]), loaded, finished and '
         'calculated: no exception, every cell equals SemF - hence cells '
         'outside the faults\' cones keep the fault-free values and IFERROR / '
         'ISERROR intercept - and the recorded calculation is a Calc behaviour.',
@@ -269,7 +287,10 @@ CLAIMED = {
         'with from_ranges(*outs).finish(): the outputs must equal Sem(W) and '
         'the fully loaded model; complete() and finish() applied again must '
         'leave nodes, edges and results unchanged; the cells the run '
-        'registered (hook H7) must include Needs(W, outs) (CompleteTrace).',
+        'registered (hook H7) must include Needs(W, outs) (CompleteTrace). One '
+        'workbook in four has the same sheet title in two books (all formula '
+        'cells requested), one in four sheet titles with asymmetric case '
+        'mappings (Stra\u00dfe, \u00b5g).',
         'Trusted: TLC; the generator; whole-column references are not '
         'generated.',
         'DESIGN.md 4/C15'),
@@ -287,7 +308,9 @@ CLAIMED = {
         'the loaded books; every cell of every book is compared with Out(Sem) '
         'at its own sheet and coordinates (errors as text, blanks empty, '
         'logicals not numbers), unsolved cells with the previous content, and '
-        'compare() with the model\'s own files must report nothing.',
+        'compare() with the model\'s own files must report nothing. One workbook '
+        'in three has sheet titles whose upper / lower case mappings are not '
+        'mirror images (the file keeps Stra\u00dfe, the model knows STRASSE).',
         'Trusted: TLC; openpyxl as the independent reader; the generator.',
         'DESIGN.md 4/C16'),
     'C17': (
